@@ -144,18 +144,32 @@ func runC08(c *Ctx) {
 		}
 		// inside: appends to the cleanup list
 		p := f.Params[3]
-		notCommitted := condEdges(f, func(cond ssa.Value) int {
-			if stripConv(cond) == ssa.Value(p) {
-				return -1
-			}
-			return 0
-		})
-		committed := condEdges(f, func(cond ssa.Value) int {
+		// truth of the flag on an edge: `if p`, `if p == true/false`, `switch p { case true/false }`
+		flagTruth := func(cond ssa.Value) int {
 			if stripConv(cond) == ssa.Value(p) {
 				return 1
 			}
+			if b, ok := cond.(*ssa.BinOp); ok && (b.Op == token.EQL || b.Op == token.NEQ) {
+				for _, pair := range [][2]ssa.Value{{b.X, b.Y}, {b.Y, b.X}} {
+					if stripConv(pair[0]) != ssa.Value(p) {
+						continue
+					}
+					t := 0
+					if isConstBool(pair[1], true) {
+						t = 1
+					} else if isConstBool(pair[1], false) {
+						t = -1
+					}
+					if b.Op == token.NEQ {
+						t = -t
+					}
+					return t
+				}
+			}
 			return 0
-		})
+		}
+		notCommitted := condEdges(f, func(cond ssa.Value) int { return -flagTruth(cond) })
+		committed := condEdges(f, flagTruth)
 		lookupEdges := func(mapName string, found bool) []edge {
 			return condEdges(f, func(cond ssa.Value) int {
 				if e, ok := cond.(*ssa.Extract); ok && e.Index == 1 {
